@@ -90,7 +90,7 @@ let () =
       Buffer.clear buf;
       (try
         let v = parse line sp in
-        print buf (run (coq_string name) v)
+        print buf (sv_run_entry (coq_string name) v)
       with
       | Parse m -> Buffer.add_string buf ("!parse " ^ m)
       | Stack_overflow -> Buffer.add_string buf "!stack"
